@@ -58,6 +58,8 @@ breaking('refix-euler-batch', {'C01': 'SH1'}, patch_reverse='fix_e495357.diff')
 breaking('R1-conj-wrong-condition', {'C03': 'R1'}, edit=[(M + 'sim/dm.py', "tmp2 = np.conjugate(op).reshape(", "tmp2 = (op if np.isrealobj(dm) else np.conjugate(op)).reshape(")])
 breaking('R1-control-uniform-offset', {'C03': 'R1'}, edit=[(M + 'sim/state.py', "    tmp0 = [x for x in range(num_qubit) if x not in ind_control_set]\n    index_map = {y:x for x,y in enumerate(tmp0)}\n    ind_target_new = [index_map[x] for x in ind_target]", "    tmp0 = sum(1 for x in ind_control_set if x<ind_target[0])\n    ind_target_new = [(x-tmp0) for x in ind_target]")])
 breaking('D5-sorted-targets', {'C03': 'D5'}, edit=[(M + 'sim/circuit.py', "target_qubit = hf_tuple_of_int(index[1])", "target_qubit = tuple(sorted(hf_tuple_of_int(index[1])))")])
+breaking('refix-euler-rank-eq-dim', {'C01': 'SH2'}, patch_reverse='fix_dd44bd4.diff')
+breaking('SH2-row-short', {'C01': 'SH2'}, edit=[(M + 'manifold/_stiefel.py', "rowJ = np.concatenate([ct[:,:1], ct[:,1:]*cum_st[:,:-1], cum_st[:,-1:]], axis=1).reshape(batch,N0+1,1)", "rowJ = np.concatenate([ct[:,:1], ct[:,2:]*cum_st[:,:-2], cum_st[:,-1:]], axis=1).reshape(batch,N0+1,1)")])
 breaking('refix-get_gme_2qubit', {'C13': 'F2', 'C05': 'F2'}, patch_reverse='fix_78cd862.diff')
 
 # ---- textual breaking edits, one per rule family
